@@ -19,9 +19,16 @@ SUF2 = envstr("VF_SUF2", "")
 CONFIG = envstr("VF_CONFIG", "local")
 LX = envint("VF_LX", 1)
 LY = envint("VF_LY", 1)
-ROOTS = {"local": "/r", "server": "/z"}
-OTHER = {"local": "server", "server": "local"}
 from spil.sid.pathops.pathconfig import get_path_config  # noqa: E402
+import os as _os  # noqa: E402
+
+_names = list(conf.path_configs.keys())
+ROOTS = {c: _os.path.commonprefix(list(get_path_config(c).path_templates.values())).split("{")[0].rstrip("/") for c in _names}
+OTHER = {c: _names[(i + 1) % len(_names)] for i, c in enumerate(_names)}
+if CONFIG not in ROOTS:
+    CONFIG = _names[0]
+# "differ only by the configured root" applies to configurations that share the path vocabulary (value mappings)
+SAME_VOCAB = {c: get_path_config(c).path_mapping == get_path_config(OTHER[c]).path_mapping for c in _names}
 
 HAS_PATH = {c: set(get_path_config(c).path_templates.keys()) for c in ROOTS}
 
@@ -70,7 +77,7 @@ def roundtrip(t: str) -> bool:
     root, oroot = ROOTS[c], ROOTS[OTHER[c]]
     if not ps.startswith(root + "/") or not str(other).startswith(oroot + "/"):
         return fail("wrong-root")
-    if ps[len(root):] != str(other)[len(oroot):]:
+    if SAME_VOCAB[c] and ps[len(root):] != str(other)[len(oroot):]:
         return fail("tails-differ-between-configurations")
     if Sid(path=ps, config=OTHER[c]):
         return fail("path-resolves-under-other-configuration")
